@@ -34,41 +34,45 @@ func SequenceGeneratorChannel(
 	maxSequences := int64(solution.Model().SequenceSampleSize())
 	solutionStops := planUnit.SolutionStops()
 	ch := make(chan SolutionStops)
+	// The sequences are generated in the goroutine of the caller: the random
+	// source of the solution is not safe for concurrent use and the consumer
+	// of the channel draws from it as well.
+	sequences := []SolutionStops{solutionStops}
+	if planUnit.ModelPlanStopsUnit().NumberOfStops() != 1 {
+		sequences = sequences[:0]
+		used := make([]bool, len(solutionStops))
+		inDegree := map[int]int{}
+		modelPlanUnit := planUnit.ModelPlanUnit().(*planMultipleStopsImpl)
+		dag := modelPlanUnit.dag.(*directedAcyclicGraphImpl)
+		for _, solutionStop := range solutionStops {
+			inDegree[solutionStop.ModelStop().Index()] = 0
+		}
+		for _, arc := range dag.arcs {
+			inDegree[arc.Destination().Index()]++
+		}
+
+		sequenceGenerator(
+			solutionStops,
+			make([]SolutionStop, 0, len(solutionStops)),
+			used,
+			inDegree,
+			dag,
+			solution.Random(),
+			&maxSequences,
+			func(solutionStops SolutionStops) {
+				sequences = append(sequences, solutionStops)
+			},
+			-1,
+		)
+	}
 	go func() {
 		defer close(ch)
-		switch planUnit.ModelPlanStopsUnit().NumberOfStops() {
-		case 1:
-			ch <- solutionStops
-			return
-		default:
-			used := make([]bool, len(solutionStops))
-			inDegree := map[int]int{}
-			modelPlanUnit := planUnit.ModelPlanUnit().(*planMultipleStopsImpl)
-			dag := modelPlanUnit.dag.(*directedAcyclicGraphImpl)
-			for _, solutionStop := range solutionStops {
-				inDegree[solutionStop.ModelStop().Index()] = 0
+		for _, sequence := range sequences {
+			select {
+			case <-quit:
+				return
+			case ch <- sequence:
 			}
-			for _, arc := range dag.arcs {
-				inDegree[arc.Destination().Index()]++
-			}
-
-			sequenceGenerator(
-				solutionStops,
-				make([]SolutionStop, 0, len(solutionStops)),
-				used,
-				inDegree,
-				dag,
-				solution.Random(),
-				&maxSequences,
-				func(solutionStops SolutionStops) {
-					select {
-					case <-quit:
-						return
-					case ch <- solutionStops:
-					}
-				},
-				-1,
-			)
 		}
 	}()
 
